@@ -76,6 +76,7 @@ type Result struct {
 	PoolOps   int
 	MapRanges int
 	OnceOps   int
+	ChanOps   int
 }
 
 // Instrument copies the non-test Go files of srcDir (plus go.mod) into dstDir, rewritten.
@@ -394,14 +395,36 @@ func (c *ctx) stmt(fc *fileCtx, s ast.Stmt, fn fnCtx, res *Result) {
 	case *ast.GoStmt:
 		c.unsupported(s, "go statement")
 	case *ast.SendStmt:
-		c.unsupported(s, "channel send")
+		// ch <- v   ==>   simrt.ChanSend(ch, v)
+		c.replace(fc, s.Pos(), s.Value.Pos(), "simrt.ChanSend("+fc.text(s.Chan)+", ")
+		c.insert(fc, s.End(), ")")
+		res.ChanOps++
+		c.exprs(fc, s.Value, fn, res)
 	case *ast.LabeledStmt:
 		c.stmt(fc, s.Stmt, fn, res)
 	case *ast.DeferStmt:
 		c.exprs(fc, s.Call, fn, res)
 	case *ast.ExprStmt:
+		if u, ok := s.X.(*ast.UnaryExpr); ok && u.Op == token.ARROW {
+			// <-ch   ==>   simrt.ChanRecv(ch)
+			c.replace(fc, u.Pos(), u.End(), "simrt.ChanRecv("+fc.text(u.X)+")")
+			res.ChanOps++
+			return
+		}
 		c.exprs(fc, s.X, fn, res)
 	case *ast.AssignStmt:
+		if len(s.Lhs) == 2 && len(s.Rhs) == 1 {
+			if u, ok := s.Rhs[0].(*ast.UnaryExpr); ok && u.Op == token.ARROW {
+				// v, ok := <-ch
+				if t, ok := c.chanElem(u.X); ok {
+					c.replace(fc, u.Pos(), u.End(), fmt.Sprintf("func() (%s, bool) { __v, __ok := simrt.ChanRecv2(%s); if __v == nil { var __z %s; return __z, __ok }; return __v.(%s), __ok }()", t, fc.text(u.X), t, t))
+					res.ChanOps++
+					return
+				}
+				c.unsupported(u, "channel receive of a foreign element type")
+				return
+			}
+		}
 		for _, e := range s.Lhs {
 			c.exprs(fc, e, fn, res)
 		}
@@ -510,13 +533,48 @@ func (c *ctx) exprs(fc *fileCtx, n ast.Node, fn fnCtx, res *Result) {
 			return false
 		case *ast.UnaryExpr:
 			if x.Op == token.ARROW {
-				c.unsupported(x, "channel receive")
+				t, ok := c.chanElem(x.X)
+				if !ok {
+					c.unsupported(x, "channel receive of a foreign element type")
+					return false
+				}
+				c.replace(fc, x.Pos(), x.End(), fmt.Sprintf("func() %s { __v, _ := simrt.ChanRecv2(%s); if __v == nil { var __z %s; return __z }; return __v.(%s) }()", t, fc.text(x.X), t, t))
+				res.ChanOps++
+				return false
 			}
 		case *ast.CallExpr:
+			if id, ok := x.Fun.(*ast.Ident); ok && id.Name == "close" && len(x.Args) == 1 {
+				if _, isBuiltin := c.info.Uses[id].(*types.Builtin); isBuiltin {
+					c.replace(fc, x.Pos(), x.Lparen+1, "simrt.ChanClose(")
+					res.ChanOps++
+				}
+			}
 			c.call(fc, x, res)
 		}
 		return true
 	})
+}
+
+// chanElem renders the element type of the channel expression e as source text valid inside
+// the package (foreign named types are not supported).
+func (c *ctx) chanElem(e ast.Expr) (string, bool) {
+	tv, ok := c.info.Types[e]
+	if !ok {
+		return "", false
+	}
+	ch, ok := tv.Type.Underlying().(*types.Chan)
+	if !ok {
+		return "", false
+	}
+	foreign := false
+	t := types.TypeString(ch.Elem(), func(p *types.Package) string {
+		if p == c.pkg {
+			return ""
+		}
+		foreign = true
+		return p.Name()
+	})
+	return t, !foreign
 }
 
 func namedFrom(t types.Type, pkgPath, name string) bool {
